@@ -225,6 +225,15 @@ func (c *regexpSimplifyChecker) walk(e syntax.Expr) {
 		}
 
 	case syntax.OpQuestion, syntax.OpNonGreedy:
+		if e.Op == syntax.OpNonGreedy && e.Args[0].Op == syntax.OpRepeat {
+			switch e.Args[0].Args[1].Value {
+			case "{1}", "{0}":
+				// `x{1}?` is exactly one x (lazily). The repeat is removed below,
+				// and its laziness mark must go with it: `x?` is an optional x.
+				c.walk(e.Args[0])
+				return
+			}
+		}
 		c.walk(e.Args[0])
 		out.WriteString("?")
 	case syntax.OpStar:
